@@ -65,6 +65,16 @@ def rule_M2(ctx, R):
         bad = None
         nret = 0
         for p in paths:
+            if p.kind == "unwind":
+                # a leaf operation that unwinds has at most attempted its one raw operation; in particular it releases nothing
+                # (a "defensive" unlock in the handler of a failed acquisition frees another thread's hold)
+                extra = [e for e in p.ev("RAW", "ACQ", "TRY", "REL") if not e.get("derived")]
+                if len(extra) > 1:
+                    worst = next((e for e in extra if e["k"] == "REL" or (e["k"] == "RAW" and RAW_SEM.get(e.get("op"), ("",))[0] == "REL")), extra[-1])
+                    if not (want[0] == "REL" and len(extra) == 1):
+                        bad = "on an unwinding path it also performs %s(%s): a failed or panicking %s must not touch the lock again" % (
+                            worst["k"], worst.get("op") or worst.get("recv"), name)
+                continue
             if p.kind != "ret":
                 continue
             raws = p.ev("RAW")
